@@ -15,7 +15,7 @@ SPEC = {
                 "PyMatterSim.utils.funcs:nidealfac"],
     "must_reach": ["PyMatterSim.static.gr:gr.unary", "PyMatterSim.static.gr:gr.binary", "PyMatterSim.static.gr:gr.ternary",
                    "PyMatterSim.static.gr:gr.quarternary", "PyMatterSim.static.gr:gr.quinary"],
-    "floors": {"columns": 400, "layout": 100, "sum_rule": 80, "routing_probe": 35, "csv": 20, "same_binning_other_dimension": 10},
+    "floors": {"columns": 400, "layout": 100, "sum_rule": 80, "routing_probe": 35, "csv": 20, "same_binning_other_dimension": 10, "same_binning_same_dimension": 20},
     "rule": ("{gas, perturbed lattice, clusters, hard-core} x K=1..6 x {2D,3D} x {orthogonal, triclinic +/-} x masks x "
              "bin widths x 1..4 frames x N 2..70, plus the exhaustive species-pair routing probe (35 pairs for K=1..5); "
              "non-trivial = at least one compared bin holds a pair and fewer than 20% of compared bins are tie-relaxed; "
@@ -109,17 +109,23 @@ def one_case(ctx, rng, wd, K=None, force=None, force_N=None):
             good = bool(np.all(np.abs(back.values - res.values) <= 0.5e-6 + 1e-9 * np.abs(res.values)))
         ctx.check("csv", good, key + "/csv", "CSV differs from returned frame beyond %.6f", info)
         os.remove(outfile)
-    if rng.random() < 0.25:
+    u = rng.random()
+    if u < 0.2:
         twin_case(ctx, rng, d, w, nb)
+    elif u < 0.4:
+        # a one-species system (its own density) and then a mixture, all with this binning and dimensionality
+        twin_case(ctx, rng, d, w, nb, same_dim=True, K=1)
+        twin_case(ctx, rng, d, w, nb, same_dim=True)
 
 
 
-def twin_case(ctx, rng, d_prev, w, nb):
-    """history: a system of the OTHER dimensionality analysed right after, with exactly the same bin width and the same number of bins
-    (what a value remembered under (bins, width) would be reused for)"""
+def twin_case(ctx, rng, d_prev, w, nb, same_dim=False, K=None):
+    """history: another system analysed right after with exactly the same bin width and the same number of bins -- of the OTHER
+    dimensionality, or of the same dimensionality with another density / species count (what a value remembered under
+    (bins, width[, dimension]) would be reused for)"""
     from PyMatterSim.static.gr import gr
-    d = 5 - d_prev
-    K = int(rng.integers(1, 4))
+    d = d_prev if same_dim else 5 - d_prev
+    K = K or int(rng.integers(1, 7))
     N = int(rng.integers(max(6, K), 40))
     Lmin = 2.0 * w * (nb + 0.5)
     cell = gc.make_cell(rng, d, "ortho", lmin=Lmin, lmax=Lmin * 1.3)
@@ -131,7 +137,7 @@ def twin_case(ctx, rng, d_prev, w, nb):
     Kreal = len(np.unique(types))
     info = lambda: {"twin_of_dimension": d_prev, "d": d, "N": N, "K": Kreal, "rdelta": w, "bins": nb, "H": cell["H"], "types": types,  # noqa: E731
                     "positions": snaps.snapshots[0].positions if N <= 30 else "omitted"}
-    key = f"gr/K{Kreal}/same_binning_other_dimension"
+    key = f"gr/K{min(Kreal, 6)}/same_binning_" + ("same_dimension" if same_dim else "other_dimension")
     ok, res = ctx.call(key, lambda: gr(snaps, ppp=ppp, rdelta=w).getresults(), data=info)
     ctx.case(f"twin/{d}D", snaps.snapshots[0].positions, types, w, nontrivial=True)
     if not ok or res is None:
@@ -140,7 +146,7 @@ def twin_case(ctx, rng, d_prev, w, nb):
     if nb2 != nb:
         return
     if compare_frame(ctx, res, ref, r, compare, relaxed, nb2, Kreal, key, info):
-        ctx.count("same_binning_other_dimension")
+        ctx.count("same_binning_same_dimension" if same_dim else "same_binning_other_dimension")
 
 
 def routing_probe(ctx):
